@@ -106,7 +106,34 @@ class DiffCheck:
             o2["exc"] = {"type": "<hang>", "cause": None, "suppress_context": False} if self.compare_exc_chain else "<hang>"
             o2["log"] = [list(x) for x in t2.log][:50]
             return o1, o2, True
-        return self.observe(g1, e1, t1, inj1), self.observe(g2, e2, t2, inj2), True
+        o1, o2 = self.observe(g1, e1, t1, inj1), self.observe(g2, e2, t2, inj2)
+        if self.equalise_unhashable_display(src, e1, e2, o1, o2) == "incomparable":
+            return None, None, False
+        return o1, o2, True
+
+    @staticmethod
+    def equalise_unhashable_display(src, e1, e2, o1, o2):
+        """CPython evaluates every operand of a dict / set display before it hashes the keys (BUILD_MAP / BUILD_SET), so an
+        unhashable key raises only after the later operands ran; an interpreter that inserts as it goes raises at the key.
+        Which operands run before that TypeError is a code-generation detail, not language semantics: when both sides
+        raise the unhashable-type TypeError in a program with such a display, and pyscript's log is a prefix of CPython's,
+        the logs are taken as equal; when CPython's later operand raised another exception first, the case is dropped."""
+        if not (e1 is not None and isinstance(e2, TypeError) and "unhashable type" in str(e2)):
+            return None
+        try:
+            tree = ast.parse(src)
+        except SyntaxError:
+            return None
+        if not any(isinstance(n, (ast.Dict, ast.Set)) for n in ast.walk(tree)):
+            return None
+        if o1["log"][: len(o2["log"])] != o2["log"]:
+            return None
+        if isinstance(e1, TypeError) and "unhashable type" in str(e1):
+            o2["log"] = [list(x) for x in o1["log"]]
+            return "equalised"
+        # CPython went on past the unhashable key and a later operand raised something else first: which of the two
+        # exceptions wins depends on the same code-generation detail - the case is not comparable and is dropped
+        return "incomparable"
 
     async def minimise(self, src, kinds, max_tests=250):
         from .reduce import reduce_source
